@@ -875,7 +875,7 @@ func listsStartEmpty(c *Ctx, fn *ssa.Function, label string) {
 		if a.fa != nil {
 			holder = canonTerm(newTermEnv().Term(a.fa.X))
 		}
-		reset, problem := false, ""
+		reset, problem, skipped := false, "", ""
 		for _, b := range fn.Blocks {
 			for _, ins := range b.Instrs {
 				st, ok := ins.(*ssa.Store)
@@ -922,10 +922,16 @@ func listsStartEmpty(c *Ctx, fn *ssa.Function, label string) {
 						problem = "it is given a value that is not an empty list at " + c.P.Pos(st.Pos())
 					} else if st.Block().Dominates(a.at.Block()) {
 						reset = true
+						if r := undominatedSuccessReturn(fn, st.Block()); r != nil {
+							skipped = "a return that may report success at " + c.P.Pos(r.Pos()) + " is reached without passing the store that empties the list (" + c.P.Pos(st.Pos()) + "): what an earlier use left in the list is handed back"
+						}
 					}
 				case holder != "" && at == holder:
 					if isZeroValue(st.Val) && st.Block().Dominates(a.at.Block()) {
 						reset = true
+						if r := undominatedSuccessReturn(fn, st.Block()); r != nil {
+							skipped = "a return that may report success at " + c.P.Pos(r.Pos()) + " is reached without passing the store that clears the object (" + c.P.Pos(st.Pos()) + ")"
+						}
 					}
 				}
 			}
@@ -936,11 +942,45 @@ func listsStartEmpty(c *Ctx, fn *ssa.Function, label string) {
 			c.Fail("W-rd", key, a.st.Pos(), "the list the decoded elements are appended to does not start empty: "+problem)
 		case !reset:
 			c.Fail("W-rd", key, a.st.Pos(), "the list the decoded elements are appended to is not emptied before the first append (no dominating store of an empty list or of a zero object)")
+		case skipped != "":
+			c.Fail("W-rd", key, a.st.Pos(), "the list the decoded elements are appended to is not emptied on every way to a successful return: "+skipped)
 		default:
 			c.OK("W-rd", key, a.st.Pos(), "emptied before the first append, written by nothing but the appends")
 		}
 	}
 	c.MinInstances("W-rd/starts-empty/"+label, n, 1)
+}
+
+// undominatedSuccessReturn: a return of fn that may report success (its error result is not known to be an
+// error) and that block b does not dominate.
+func undominatedSuccessReturn(fn *ssa.Function, b *ssa.BasicBlock) *ssa.Return {
+	for _, rb := range fn.Blocks {
+		r, ok := rb.Instrs[len(rb.Instrs)-1].(*ssa.Return)
+		if !ok || len(r.Results) == 0 || b.Dominates(rb) {
+			continue
+		}
+		e := r.Results[len(r.Results)-1]
+		if !types.Identical(e.Type(), types.Universe.Lookup("error").Type()) {
+			return r
+		}
+		if returnKinds(e) == 2 {
+			continue
+		}
+		isErr := false
+		for _, dc := range dominatingConds(rb) {
+			bo, ok := dc.cond.(*ssa.BinOp)
+			if !ok || bo.X != e {
+				continue
+			}
+			if k, isK := bo.Y.(*ssa.Const); isK && k.Value == nil && ((bo.Op == token.NEQ && dc.truth) || (bo.Op == token.EQL && !dc.truth)) {
+				isErr = true
+			}
+		}
+		if !isErr {
+			return r
+		}
+	}
+	return nil
 }
 
 // isZeroValue: the zero value of a struct type as go/ssa spells it (a load of a fresh, never written local, or
